@@ -93,7 +93,7 @@ def checkDump (a : A) (n : Nat) (d : Json) : List String := Id.run do
   bad := bad ++ chk "desc" (aDesc a) true
   return bad
 
-def graphHandler : Handler := fun input impl => do
+def graphHandler : Handler := fun _prop input impl => do
   let n ← jnat input "n"
   let ops ← (← jarr input "ops").toList.mapM parseOp
   let implDumps : List Json := match impl with
